@@ -7,9 +7,13 @@
 (*               (Shutdown!ConnKinds: which phase of a request meets the   *)
 (*               status flip / the listener close / the return), hooks the *)
 (*               OnShutdown hooks (hook 1 is the driver's fast signal      *)
-(*               hook; "slow" = wait/4, "beyond" = wait + Slack(wait) +    *)
+(*               hook; "slow" = 2/3 wait, "beyond" = wait + Slack(wait) +  *)
 (*               500 ms, ignoring its context: well beyond the bound on    *)
-(*               the return; such schedules use the short BeyondWait),     *)
+(*               the return; such schedules use the short BeyondWait;      *)
+(*               schedules with slow hooks use SlowWait so that a slow     *)
+(*               hook lasts 200 ms: two of them do not fit into the exit   *)
+(*               wait time one after the other; slow / beyond hooks are    *)
+(*               also registered BEFORE fast ones),                        *)
 (*               second =                                                  *)
 (*               when a second Shutdown call is made ("during": after the  *)
 (*               first is known to have begun; "after": after it returned; *)
@@ -32,7 +36,7 @@
 (***************************************************************************)
 EXTENDS Shutdown, Json, IOUtils, SequencesExt
 
-CONSTANTS PairMod, NTriple, HookMod, SecondMod, NRand, Waits, LongWaits, Idles, Trials, BeyondWait
+CONSTANTS PairMod, NTriple, HookMod, SecondMod, NRand, Waits, LongWaits, Idles, Trials, BeyondWait, SlowWait
 
 Seed == atoi(IOEnv.VERIF_SEED)
 
@@ -59,9 +63,10 @@ Blank == [id |-> 0, cls |-> "run", tp |-> "standard", waitMs |-> 0, idleMs |-> 0
 \* the OnAccept callback of the netpoll transport runs inside the poller: it is gated on the standard transport only
 ForTransport(tp, conns) == [i \in DOMAIN conns |-> IF tp = "netpoll" /\ conns[i] = "aL" THEN "cL" ELSE conns[i]]
 HasBeyond(hooks) == \E i \in DOMAIN hooks : hooks[i] = "beyond"
+HasSlow(hooks) == \E i \in DOMAIN hooks : hooks[i] = "slow"
 RunCase(tp, conns, hooks, second, x) ==
     [Blank EXCEPT !.tp = tp, !.conns = ForTransport(tp, conns), !.hooks = hooks, !.second = second,
-                  !.waitMs = IF HasBeyond(hooks) THEN BeyondWait ELSE Pick(Waits, H(x + Seed)), !.idleMs = Pick(Idles, H(x + 3 * Seed + 1) \div 7), !.seed = H(x + Seed * 131)]
+                  !.waitMs = IF HasBeyond(hooks) THEN BeyondWait ELSE IF HasSlow(hooks) THEN SlowWait ELSE Pick(Waits, H(x + Seed)), !.idleMs = Pick(Idles, H(x + 3 * Seed + 1) \div 7), !.seed = H(x + Seed * 131)]
 
 Singles(tp) == [i \in 1 .. Len(K) |-> [RunCase(tp, <<K[i]>>, <<"fast">>, "none", i) EXCEPT !.jit = IF K[i] = "rR" THEN 1 ELSE 0]]
 
@@ -74,11 +79,13 @@ Triples(tp) ==
        LET a == H(t + Seed * 131) b == H(a + t) c == H(b + 3 * t)
        IN  RunCase(tp, <<K[(a % NF) + 1], K[(b % NF) + 1], K[(c % NF) + 1]>>, <<"fast">>, "none", a + b + c)]
 
-HookSets == <<<<"fast", "slow">>, <<"fast", "beyond">>, <<"fast", "slow", "beyond">>, <<"fast", "fast", "slow">>>>
+HookSets == <<<<"fast", "slow">>, <<"fast", "beyond">>, <<"fast", "slow", "beyond">>, <<"fast", "fast", "slow">>,
+              <<"fast", "beyond", "fast">>, <<"fast", "slow", "slow", "fast">>, <<"fast", "beyond", "slow", "fast">>>>
 HookConns == << << >>, <<"bA">>, <<"bL">>, <<"iK">>, <<"cL">> >>
 HookCases(tp) ==
     LET idx == {p \in (1 .. Len(HookSets)) \X (1 .. Len(HookConns)) :
-                  (p[1] * 5 + p[2] * 3 + Seed) % HookMod = 0 \/ p = <<2, 2>> \/ p = <<3, 1>> \/ p = <<2, 3>> \/ p = <<2, 1>>}
+                  (p[1] * 5 + p[2] * 3 + Seed) % HookMod = 0 \/ p = <<2, 2>> \/ p = <<3, 1>> \/ p = <<2, 3>> \/ p = <<2, 1>>
+                  \/ p = <<5, 1>> \/ p = <<5, 2>> \/ p = <<6, 1>> \/ p = <<6, 4>> \/ p = <<7, 2>>}
     IN  SetToSeq({RunCase(tp, HookConns[p[2]], HookSets[p[1]], "none", p[1] * 7 + p[2]) : p \in idx})
 
 Seconds == <<"during", "after", "closed", "race">>
